@@ -93,7 +93,7 @@ def literal_cases(rng, tier):
     for n in range(0, mx + 1):
         for tup in itertools.product(alpha, repeat=n):
             out.append("'" + ''.join(tup) + "'")
-    pool = alpha + [' ', 'é', '中', '%', '\n', "''", "\\'", '\\\\', 'B']
+    pool = alpha + [' ', 'é', '中', '%', '\n', "''", "\\'", '\\\\', 'B', '\u00a0', '\u3000', '\u200b', '\ufeff', '\u2003', '\x0b', '\x1f', '\u2028']
     for _ in range(600 if tier == 'quick' else 10000):
         out.append("'" + ''.join(rng.choice(pool) for _ in range(rng.randint(1, 10))) + "'")
     return list(dict.fromkeys(out))
@@ -106,7 +106,7 @@ def value_cases(rng, tier):
     for n in range(0, mx + 1):
         for tup in itertools.product(alpha, repeat=n):
             out.append(''.join(tup))
-    pool = alpha + ['é', '中', '%', '\n', 'it', "s'", 'B', '\t']
+    pool = alpha + ['é', '中', '%', '\n', 'it', "s'", 'B', '\t', '\u00a0', '\u3000', '\u200b', '\ufeff', '\u2003', '\x0b', '\x1f', '\u2028']
     for _ in range(300 if tier == 'quick' else 5000):
         out.append(''.join(rng.choice(pool) for _ in range(rng.randint(1, 10))))
     return list(dict.fromkeys(out))
@@ -302,7 +302,7 @@ def run(tier, seed, replay=None):
                                  'what': 'decimal literal does not keep its value'})
         # identifier paths (exploration)
         id_fail = 0
-        parts_pool = ['a', 'A', 'ab c', 'a.b', '1a', 'select', 'x`y', 'Ünï', 'primary_key', '', 'a$b', '$x', 'null$x', 'status$code',
+        parts_pool = ['a', 'A', 'ab c', 'a.b', '1a', 'select', 'x`y', 'Ünï', 'primary_key', '', 'a$b', '$x', 'null$x', 'status$code', 'a\u00a0b', 'x\u3000y', '\ufeffz', 'q\u200bq',
                       'Date$1', 'true$1', 'x$null', 'a-b', 'a b', 'from', 'From', 'in', 'IS', 'a1_', '_', 'é']
         for _ in range(300 if tier == 'quick' else 3000):
             parts = [rng.choice(parts_pool) for _ in range(rng.randint(1, 3))]
